@@ -2,7 +2,7 @@ import KcpVerif.Model.KcpOwn
 import Driver.Util
 /-! driver component `kcpown`: two instrumented protocol cores `a` and `b` (Model/KcpOwn) on the op
 lines of component `kcp`.  Observation per op: the pool events of that op — `g=<gets> p=<puts>
-e=<g<id>|p<id>,…>` with ids = acquisition numbers (the n-th `Get` of the history, both cores share
+e=<g<id>|p<id>,…> u=<id,…>` with ids = acquisition numbers (the n-th `Get` of the history, both cores share
 the counter as they share the pool) — and for `state` the buffer id held at every queue position. -/
 namespace Driver.KcpOwnC
 open KcpVerif KcpVerif.Kcp KcpVerif.Own KcpVerif.Pool
@@ -26,9 +26,17 @@ def isPut : Ev → Bool
   | .put _ => true
   | _ => false
 
-def obs (o : KcpO) : String :=
+def showUse : Ev → Option String
+  | .use id => some (toString id)
+  | _ => none
+
+/-- `wire = true` for the operations that may flush: their `use` events are the segments phase 5
+transmits, which the harness reads off the wire (`u=`); the `use` events of Send (stream append) and
+Recv (copy-out) have no observable counterpart and are not printed -/
+def obs (o : KcpO) (wire : Bool := false) : String :=
   let evs := o.gh.log.filterMap showEv
-  s!"g={(o.gh.log.filter isGet).length} p={(o.gh.log.filter isPut).length} e={if evs.isEmpty then "-" else joinWith "," evs}"
+  let us := if wire then o.gh.log.filterMap showUse else []
+  s!"g={(o.gh.log.filter isGet).length} p={(o.gh.log.filter isPut).length} e={if evs.isEmpty then "-" else joinWith "," evs} u={if us.isEmpty then "-" else joinWith "," us}"
 
 def showId : Option Nat → String
   | some id => toString id
@@ -65,17 +73,17 @@ def stepCore (o : KcpO) : List String → KcpO × String
   | ["input", h, reg, nd, now] => match bytesOfHex h, pu32 now with
     | some b, some now =>
       let r := inputO o b (reg == "1") (nd == "1") now
-      if r.panic then (r.o, "panic") else (r.o, obs r.o)
+      if r.panic then (r.o, "panic") else (r.o, obs r.o true)
     | _, _ => (o, "bad-op")
   | ["flush", full, now] => match pu32 now with
     | some now =>
       let r := flushO o (full == "1") now
-      if r.panic then (r.o, "panic") else (r.o, obs r.o)
+      if r.panic then (r.o, "panic") else (r.o, obs r.o true)
     | none => (o, "bad-op")
   | ["update", now] => match pu32 now with
     | some now =>
       let r := updateO o now
-      if r.panic then (r.o, "panic") else (r.o, obs r.o)
+      if r.panic then (r.o, "panic") else (r.o, obs r.o true)
     | none => (o, "bad-op")
   | ["check", _] => (o, obs o)
   | ["waitsnd"] => (o, obs o)
